@@ -43,6 +43,7 @@ type Prog struct {
 	GOOS, GOARCH string
 	Tags         string
 	Overlay      map[string][]byte
+	roleCache    map[string]*ssa.Function
 }
 
 type LoadConfig struct {
@@ -213,6 +214,13 @@ func (p *Prog) RelPkg(tp *types.Package) string {
 
 // Func finds a package-level function or method "T.m" in a production package.
 func (p *Prog) Func(rel, name string) *ssa.Function {
+	if fn := p.funcByName(rel, name); fn != nil {
+		return fn
+	}
+	return p.funcByRole(rel, name)
+}
+
+func (p *Prog) funcByName(rel, name string) *ssa.Function {
 	sp := p.SSAPkg[rel]
 	if sp == nil {
 		return nil
@@ -257,7 +265,7 @@ func (p *Prog) NamedType(rel, name string) *types.Named {
 	}
 	obj := pk.Types.Scope().Lookup(name)
 	if obj == nil {
-		return nil
+		return p.namedByRole(rel, name)
 	}
 	n, _ := obj.Type().(*types.Named)
 	return n
@@ -266,6 +274,13 @@ func (p *Prog) NamedType(rel, name string) *types.Named {
 // Field looks up a struct field object (following one level of anonymous
 // struct nesting with a dotted path, e.g. "writer.indexStart").
 func (p *Prog) Field(rel, typ, path string) *types.Var {
+	if v := p.fieldByName(rel, typ, path); v != nil {
+		return v
+	}
+	return p.fieldByRole(rel, typ, path)
+}
+
+func (p *Prog) fieldByName(rel, typ, path string) *types.Var {
 	n := p.NamedType(rel, typ)
 	if n == nil {
 		return nil
